@@ -274,9 +274,11 @@ def run(ctx):
     n_reads = 0
     for m in d2s.all_methods:
         for n in walk_no_nested(m.node):
-            if isinstance(n, ast.Subscript) and isinstance(n.value, ast.Name) and n.value.id == "row" and \
+            if isinstance(n, ast.Subscript) and isinstance(n.ctx, ast.Load) and \
                     isinstance(n.slice, ast.Attribute) and isinstance(n.slice.value, ast.Name) and n.slice.value.id == "constants":
                 kv = prog.try_const(n.slice, m.module, m.cls, m)
+                if not isinstance(kv, str) or not any(kv in cols for cols in col_lists.values()):
+                    continue       # a sheet key (constants.TAG_KEY ...), not a column name
                 n_reads += 1
                 ctx.count_sites()
                 ctx.check(kv in written, "R5.4", m.qualname, n, loc(m, n),
